@@ -17,7 +17,7 @@ def _adt_for(sort):
 
 class Lemma:
     def __init__(self, name, vars, stmt, ind=None, triggers=None, uses=(), companions=(), ih_extra=None, doc='',
-                 nonind=False, split_depth=0):
+                 nonind=False, split_depth=0, hints=(), rewrite=False):
         self.name = name
         self.vars = vars
         self.stmt = stmt
@@ -29,6 +29,8 @@ class Lemma:
         self.doc = doc
         self.nonind = nonind
         self.split_depth = split_depth
+        self.rewrite = rewrite       # an unconditional equation lhs == rhs used left-to-right by the normaliser
+        self.hints = list(hints)     # explicit instances: (lemma name, [terms])
         self.proved = None
 
     def inst(self, *terms):
@@ -38,7 +40,28 @@ class Lemma:
         return z3.substitute(self.stmt, *[(v, mp.get(v.get_id(), v)) for v in self.vars])
 
 
+_SUB_MEMO = {}
+
+
+def reset_memo():
+    _SUB_MEMO.clear()
+
+
 def subterms(es):
+    """All subterms of the formulas (memoised per top-level formula; the memo keeps the terms alive)."""
+    out = {}
+    for e in es:
+        k = e.get_id()
+        m = _SUB_MEMO.get(k)
+        if m is None:
+            m = (e, _subterms1([e]))
+            _SUB_MEMO[k] = m
+        for t in m[1]:
+            out[t.get_id()] = t
+    return list(out.values())
+
+
+def _subterms1(es):
     seen = {}
     stack = list(es)
     while stack:
@@ -74,14 +97,14 @@ def match(pat, term, varids, binding):
     return True
 
 
-def instantiate(lemmas, formulas, rounds=2, limit=400):
+def instantiate(lemmas, formulas, rounds=3, limit=600):
     """Instances of proved lemmas whose trigger matches a subterm of the formulas."""
     out = []
     seen = set()
     cur = list(formulas)
     for _ in range(rounds):
         new = []
-        terms = subterms(cur)
+        terms = subterms(cur + out)
         by_decl = {}
         for t in terms:
             if z3.is_app(t):
@@ -126,7 +149,8 @@ def prove_lemma(lm, library, seed=0):
     results = []
     if lm.nonind:
         goal = lm.stmt
-        v = solve.prove([], goal, seed=seed, lemmas=[library[u] for u in lm.uses], split_depth=1)
+        hy = [library[n].inst(*ts) for n, ts in lm.hints]
+        v = solve.prove(hy, goal, seed=seed, lemmas=[library[u] for u in lm.uses], split_depth=1)
         results.append((f'lemma:{lm.name}/direct', v))
         lm.proved = v.status == 'proved'
         return results
